@@ -633,7 +633,7 @@ inductive HStep where
 deriving Repr
 
 inductive Inp where
-  | dec (bs : List Nat)
+  | dec (bs : List Nat) (wantTS : Option (Option Nat))   -- the generator's own knowledge of the counter it wrote, if any
   | script (v src seq : Nat) (off : Int) (ops : List Op)
   | hist (v src seq : Nat) (off : Int) (steps : List HStep)
 deriving Repr
@@ -795,7 +795,18 @@ structure Line where
 def line : P Line := do
   let t ← tok
   let inp ← match t with
-    | "D" => do let bs ← bytes; pure (Inp.dec bs)
+    | "D" => do
+      let bs ← bytes
+      match (← peek) with
+      | some "TS" => do
+        let _ ← tok
+        let t ← tok
+        if t == "?" then pure (Inp.dec bs none)
+        else if t == "-1" then pure (Inp.dec bs (some none))
+        else match t.toNat? with
+          | some n => pure (Inp.dec bs (some (some n)))
+          | none => fail s!"bad TS {t}"
+      | _ => pure (Inp.dec bs none)
     | "E" => do
       kw "N"
       let v ← nat; let src ← nat; let seq ← nat; let off ← int
@@ -983,10 +994,18 @@ def runLine (ts : List String) : Verdict :=
     | .hang => .viol "C15:hang the real code did not return"
     | _ =>
     match ln.inp, ln.out with
-    | .dec bs, .dec i =>
-      (match judgeDec bs ln.reads ln.pseq ln.pn i with
-      | .error v => .viol v
-      | .ok tags =>
+    | .dec bs want, .dec i =>
+      -- the decoded Timestamp() against the counter the generator wrote into the TLV (not against the model)
+      let tsBad : Option String := match want, i with
+        | some w, .ok o =>
+          if o.ts != w then
+            some s!"C15:decode-timestamp Timestamp() of the decoded packet gives {o.ts}, the TLV written by the harness carries {w}"
+          else none
+        | _, _ => none
+      (match tsBad, judgeDec bs ln.reads ln.pseq ln.pn i with
+      | some v, _ => .viol v
+      | none, .error v => .viol v
+      | none, .ok tags =>
         let m := modelDec bs ln.reads ln.pseq ln.pn
         if m == i then .ok tags else .diff (describeDiff m i))
     | .script v src seq off ops, out =>
